@@ -25,6 +25,7 @@ REQUIRED_COUNTERS = ["c12_batchify_calls", "c12_unbatchify_calls", "c12_gather_c
 MIN_NONTRIVIAL = {"quick": 3000, "thorough": 30000}
 WORKERS = {"quick": 14, "thorough": 16}
 BUDGET_S = {"quick": 500, "thorough": 3000}
+THOROUGH_ROUNDS = 8
 
 POLICY_ENVS = ["tsp", "cvrp", "cvrptw", "sdvrp", "op", "pctsp", "spctsp", "pdp", "svrp", "mtvrp"]  # AM x mTSP raises with any replication (context embedding), see DESIGN
 
